@@ -69,38 +69,19 @@ def top_goja(side):
 
 
 # ---------------------------------------------------------------------------------------------
-# known-finding predicates (narrow: the input shape AND the two racing code locations)
+# known-finding predicates.  F14 and C16-N1 are fixed: ANY race report is a violation now.
 
-def pred_f14(case, record, expected_text):
-    sides = (record or {}).get("race_sides")
-    if not sides or len(sides) < 2 or case.get("kind") != "vals":
+def pred_n2(case, record, expected_text):
+    """open finding C16-N2: exactly the direct-argument path with a foreign Object, observed 'accepted'"""
+    x = (case or {}).get("xrt") or {}
+    if case.get("kind") != "xrt" or x.get("path") != "callarg":
         return False
-    if not any(v.get("t") == "imp" and len(v.get("s", "").encode()) > 16 for v in case.get("vals", [])):
+    if x.get("obj") not in ("object", "array", "func", "date", "proxy"):
         return False
-    tops = [top_goja(s) for s in sides]
-    # readers of the fields live in the string implementation files (asciiString/unicodeString methods inspect an
-    # importedString argument directly, and small methods are inlined into their callers)
-    if not all(fl in ("string_imported.go", "string_ascii.go", "string_unicode.go", "string.go") for fn, fl in tops):
-        return False
-    # the only writer of the fields is scan(); the other side is scan/ensureScanned or one of the methods that
-    # read scanned/u directly (Concat, StrictEquals, Reader, utf16Reader, utf16RuneReader and the post-scan reads)
-    return any(fn == "(*importedString).scan" and s["write"] for (fn, fl), s in zip(tops, sides))
+    return (record or {}).get("obs", "").startswith("accepted")
 
 
-def pred_n1(case, record, expected_text):
-    sides = (record or {}).get("race_sides")
-    if not sides or len(sides) < 2 or case.get("kind") != "prog" or "tmplredef" not in case.get("feat", []):
-        return False
-    src = case.get("src", "")
-    if not re.search(r"Object\.(defineProperty|freeze|seal)|Reflect\.defineProperty", src):
-        return False
-    tops = [top_goja(s) for s in sides]
-    writers = {("(*baseObject)._defineOwnProperty", "object.go"), ("(*arrayObject)._defineIdxProperty", "array.go"),
-               ("(*Runtime).object_freeze", "builtin_object.go"), ("(*Runtime).object_seal", "builtin_object.go")}
-    return any(t in writers and s["write"] for t, s in zip(tops, sides))
-
-
-RACE_PREDS = {"C16.imported_scan_race": pred_f14, "C16.template_cell_redefine_race": pred_n1}
+RACE_PREDS = {}
 
 
 # ---------------------------------------------------------------------------------------------
@@ -156,7 +137,7 @@ def race_stage(ctx):
                     nviol += 1
                     ctx.violation({"property": ctx.pid, "stage": "race build: sequential equivalence", "case": r["case"],
                                    "implementation_observation": r.get("obs"), "tags": r.get("tags"),
-                                   "contradicts": ["race_free_shared_program", "primitive_share"]})
+                                   "contradicts": ["sharing_race_free"]})
             for case_idx, report, sides in parse_reports(text):
                 total_reports += 1
                 case = recs[case_idx]["case"] if case_idx is not None and case_idx < len(recs) else {}
@@ -183,14 +164,11 @@ def race_stage(ctx):
                     ctx.violation({
                         "property": ctx.pid, "stage": "race detector (-race build of the harness against the working tree)",
                         "case": case, "race_report": report[:3000], "racing_frames": [list(k) for k in key],
-                        "model_says": "every modelled operation of this case is read-only on shared memory "
-                                      "(readonly_no_race / race_free_shared_program / primitive_share): no race expected",
-                        "contradicts": ["program_run_readonly", "race_free_shared_program", "primitive_share"],
+                        "model_says": "every modelled operation of this case is race-free under every interleaving "
+                                      "(sharing_race_free / imported_race_free / program_run_readonly): no race expected",
+                        "contradicts": ["sharing_race_free", "imported_race_free", "program_run_readonly"],
                         "how_to_replay": "write {\"case\": <case>} to c.jsonl; GORACE=halt_on_error=0 build/c16-race replay -i c.jsonl -o /dev/null -x mode=race",
                     })
-    for k in known:
-        if k["id"] not in seen_known:
-            ctx.notes.append({"known_finding_not_reproduced_by_race_stage": k["id"]})
     ctx.cov["race_stage"] = {"cases": total_cases, "corpus_cases": ncorpus, "race_reports": total_reports,
                              "known_reports": seen_known, "unknown_report_kinds": len(unknown_seen),
                              "wall_s": round(time.time() - t0, 1),
@@ -207,23 +185,23 @@ CFG = {
     "run_modules": ["Verif.C16.Run"],
     "coq_dirs": ["C16"],
     "n": {"quick": 320, "thorough": 40000},
-    "shard": 40,
+    "shard": 160,
     "level": "proof",
     "shrink": False,
     "rule": ("prog: 1..4 generated snippets (regex literals with lastIndex, tagged templates incl. write attempts and no-op "
-             "redefinition, classes with private names, eval/with dynamic scopes, folded constants, closures, generators/async, "
+             "redefinition/freeze, classes with private names, eval/with dynamic scopes, folded constants, closures, generators/async, "
              "stack traces) compiled once and run 1..2 times by each of 2..16 goroutines with their own Runtime; vals: 3..11 shared "
              "primitive values (unscanned imported strings > 16 bytes, concatenations, substrings, symbols, numbers, StringFromUTF16) "
-             "used by 2..16 runtimes through a shared ops Program and the Go API; xrt: an Object of runtime A given to runtime B; "
+             "used by 2..16 runtimes through a shared ops Program and the Go API; xrt: an Object of runtime A given to runtime B through Set/ToValue/Object.Set/NewArray/a Go function result/a direct Callable argument; "
              "non-trivial = program ran without a top-level error on >= 2 goroutines / an unscanned imported string or > 2 values were "
              "shared / a foreign object was offered; distinct = by hash of the case"),
     "theorem_names": ["readonly_no_race", "program_run_readonly", "race_free_shared_program", "primitive_share",
-                      "imported_race_refuted", "tmpl_redefine_race_refuted", "cross_runtime_object_rejected",
-                      "guarded_no_race", "imported_race_free_if_locked"],
+                      "guarded_no_race", "imported_race_free", "sharing_race_free", "cross_runtime_object_rejected",
+                      "call_arg_refuted", "unsynchronised_access_races"],
     "allowed_axioms": [],
     "trusted_base": [
         "Coq 8.16.1 kernel + vm_compute; theorems closed under the global context (no axioms)",
-        "hand transcription of which memory each operation touches (coq/C16/Model.v: ev_vop, ev_pop, ev_imethod) — ASSERTED, "
+        "hand transcription of which memory each operation touches (coq/C16/Model.v: ev_vop, ev_pop, ev_ensure, ev_imethod) — ASSERTED, "
         "only sampled by the Go race detector on executed schedules",
         "the happens-before model: program order + unlock->lock + atomic store->load, per the Go memory model",
         "Go race detector (-race, ThreadSanitizer) and the harness harness/cmd/c16 + /repo/verif_hooks.go (VerifRepr)",
@@ -233,17 +211,17 @@ CFG = {
         "the race detector only sees the schedules and code paths that were executed",
         "sequential equivalence is checked on generated programs/values only",
     ],
-    "predicates": dict(RACE_PREDS),
+    "predicates": {"C16.foreign_object_as_call_argument": pred_n2},
     "stages": [vcheck.correspondence, race_stage],
     "manifest": {
         "text": ("partial: an interleaving model (threads = event lists over owned/shared locations; happens-before = program order + "
-                 "lock order + atomic order) with proved theorems: threads that write only what they own never race under ANY "
-                 "interleaving of ANY number of threads; the transcribed event list of a Program run writes nothing Program-owned, so "
-                 "any number of concurrent runs (also sharing ascii/unicode strings, symbols, numbers) are race-free; the faithful model "
-                 "of importedString (F14) and of template-cell redefinition (C16-N1) is refuted by explicit racy schedules; foreign "
-                 "Objects are rejected; a lockset theorem shows the same importedString methods are race-free when guarded by a per-string mutex. Tied to /repo on every run by (i) sequential equivalence of 2..16 concurrent runs of one Program / "
-                 "shared values with an isolated run, checked through the model's Run.v, and (ii) a -race build of the same workload: any "
-                 "race report not matching a known-finding predicate is a violation."),
+                 "mutex order + atomic store->load order) with proved theorems: threads that write only what they own never race under ANY "
+                 "interleaving of ANY number of threads; the transcribed event list of a Program run (template-cell redefinition included) "
+                 "writes nothing Program-owned; the scan-once protocol of importedString (mutex + atomic flag, as in the code) is race-free "
+                 "for any number of goroutines, any sequence of its methods, any interleaving (sharing_race_free, by a per-thread protocol "
+                 "automaton + lockset and publication arguments); foreign Objects are rejected by toValue. Tied to /repo on every run by "
+                 "(i) sequential equivalence of 2..16 concurrent runs of one Program / shared values with an isolated run, checked through "
+                 "the model's Run.v, and (ii) a -race build of the same workload: ANY race report is a violation."),
         "note": ("trusted: Coq kernel; the hand transcription of which Go memory each operation touches (asserted, sampled by the race "
                  "detector); the happens-before axiomatisation of the Go memory model; the Go race detector; the harness"),
         "technique": "Rocq proofs over an interleaving/happens-before model + concurrent differential testing + Go race detector with report classification",
